@@ -203,6 +203,77 @@ def showSlot : Option Bytes → String
   | some b => toHexField b
   | none => "err"
 
+
+/-! ### argument objects (`uses` requests)
+
+Objects are separated by `|`: a value in the token notation above, `B<hex>:<off>` a buffer
+(all bytes written, read offset), `F<hex>:<pos>` a file.  Steps are separated by `|`:
+`<convs>:<refs>` with one converter letter per parameter (`s` AsString, `b` AsBytes, `i` AsInt,
+`o` AsBool, `l` AsStringSlice) and comma-separated object indices.  The reply is, per step, the
+Go values the wrapped function is handed (`s<hex>`/`b<hex>`/… separated by spaces) or
+`typeErr`, then a TAB, then the CONTENTS of every object at the end (`B<hex>`/`F<hex>` = the
+unread part). -/
+
+def parseStateful (mk : Bytes → Nat → Obj) (cs : List Char) : Option Obj :=
+  match (String.ofList cs).splitOn ":" with
+  | [hx, n] =>
+    match fromHex hx, natOfChars n.toList with
+    | some b, some k => some (mk b k)
+    | _, _ => none
+  | _ => none
+
+def parseObj (s : String) : Option Obj :=
+  match s.toList with
+  | 'B' :: cs => parseStateful .buffer cs
+  | 'F' :: cs => parseStateful .file cs
+  | _ => (parseField s).map .val
+
+def parseAll {α : Type} (f : String → Option α) : List String → Option (List α)
+  | [] => some []
+  | t :: r =>
+    match f t, parseAll f r with
+    | some c, some cs => some (c :: cs)
+    | _, _ => none
+
+def convOfChar : Char → Option Conv
+  | 's' => some .str
+  | 'b' => some .bytes
+  | 'i' => some .int
+  | 'o' => some .bool
+  | 'l' => some .strList
+  | _ => none
+
+def parseStep (s : String) : Option (List Conv × List Nat) :=
+  match s.splitOn ":" with
+  | [cs, rs] =>
+    match parseAll (fun c => convOfChar (c.toList.headD ' ')) (cs.toList.map fun c => String.singleton c),
+          parseAll (fun r => natOfChars r.toList) (rs.splitOn ",") with
+    | some cs, some rs => some (cs, rs)
+    | _, _ => none
+  | _ => none
+
+def showGoVal : GoVal → String
+  | .str s => "s" ++ toHexField s
+  | .bytes s => "b" ++ toHexField s
+  | .int i => "i" ++ showInt i
+  | .bool b => if b then "t" else "f"
+  | .strs l => "l" ++ toString l.length ++ String.join (l.map fun s => " s" ++ toHexField s)
+
+def showContents : Obj → String
+  | .val v => showVal v
+  | .buffer b off => "B" ++ toHexField (unread b off)
+  | .file d pos => "F" ++ toHexField (unread d pos)
+
+/-- a sequence of converter tuples over one heap of objects, with the unchanged code's `AsBytes` -/
+def runConvs (h : Objs) : List (List Conv × List Nat) → List String × Objs
+  | [] => ([], h)
+  | st :: r =>
+    let c := convRefs .peek st.1 st.2 h
+    let t := runConvs c.2 r
+    ((match c.1 with
+      | some gs => " ".intercalate (gs.map showGoVal)
+      | none => "typeErr") :: t.1, t.2)
+
 def handle : List String → String
   | ["session", calls] =>
     -- the Impl heap model with the unchanged code's allocation policy; every slot as it looks
@@ -210,6 +281,12 @@ def handle : List String → String
     match parseCalls ((calls.splitOn " ").filter (· ≠ "")) with
     | some cs => " ".intercalate ((runImpl fresh Mem.empty cs).observe.map showSlot)
     | none => "error\tbad-session"
+  | ["uses", objs, steps] =>
+    match parseAll parseObj (objs.splitOn "|"), parseAll parseStep (steps.splitOn "|") with
+    | some h, some ss =>
+      let r := runConvs h ss
+      "|".intercalate r.1 ++ "\t" ++ "|".intercalate (r.2.map showContents)
+    | _, _ => "error\tbad-uses"
   | ["enc", c, x] =>
     match (parseCodec c).1, fromHex x with
     | some f, some b => toHexField (f b)
